@@ -38,6 +38,7 @@ THEOREMS = {
     "mom_ref": [],
     "mvn": [],
     "chunk": [],
+    "tokdir": ["c17_trn_dir_roundtrip", "c17_timed_dir_roundtrip", "c17_select_written"],
 }
 
 
@@ -552,7 +553,96 @@ def x_ref2ali(chk, sc, case):
 WORDS = ["a", "b", "cat", "dog", "e", "the", "x1", "<unk>", "-", "0"]
 
 
+# (round-4 miss C17-g) token names of two and more characters that are prefixes of each other, the first character of a
+# name being a name itself: indexing a bare name where a (name, start, end) triple is expected yields another token
+NAME_FAMILIES = [["a", "an", "and", "ant"], ["t", "th", "the", "then", "them"], ["he", "hel", "help", "hello"],
+                 ["c", "ca", "cat", "cats"], ["x", "x1", "x12"], ["wo", "wor", "word", "world"], ["1", "12", "123"]]
+
+
+def g_names(rng, n):
+    """n distinct token names: at least two from one prefix family, the rest from a second family and WORDS"""
+    fams = rng.sample(NAME_FAMILIES, 2)
+    pool = list(fams[0])
+    rng.shuffle(pool)
+    k = max(1, min(n, rng.randint(2, len(pool))))
+    out = pool[:k]
+    rest = [w for w in dict.fromkeys(fams[1] + WORDS) if w not in out]
+    rng.shuffle(rest)
+    out += rest[:n - k]
+    rng.shuffle(out)
+    return out
+
+
+TIMINGS = ["vec", "col1", "timed", "neg", "mixed", "mixed", "first_unk", "first_unk", "first_only", "first_only", "last_unk",
+           "last_only", "one_bound"]
+
+
+def g_timing(rng, ids, kind=None):
+    """a stored token sequence (tensor-dict) whose token column is `ids`: (R,), (R,1) or (R,3) with the boundaries of ANY
+    subset of the tokens unknown (negative start, end or both); known boundaries strictly increase along the sequence"""
+    kind = kind or rng.choice(TIMINGS)
+    if kind == "vec":
+        return {"v": list(ids)}
+    if kind == "col1":
+        return {"w": 1, "rows": [[i] for i in ids]}
+    rows, t = [], rng.randint(0, 5)
+    for i in ids:
+        dur = rng.choice([1, 1, 2, 3, 7, 0 if rng.random() < 0.2 else 2])
+        rows.append([i, t, t + dur])
+        t += dur + rng.choice([1, 1, 2, 6])
+    unk = rng.choice([-1, -1, -1, -1, -1, -2, -7])
+
+    def lose(r, both=False):
+        what = "b" if both else rng.choice("seb")
+        if what in "sb":
+            r[1] = unk
+        if what in "eb":
+            r[2] = unk
+
+    n = len(rows)
+    for k, r in enumerate(rows):
+        if kind == "neg":
+            lose(r, True)
+        elif kind == "mixed" and rng.random() < 0.5:
+            lose(r)
+        elif kind == "first_unk" and k == 0:
+            lose(r)
+        elif kind == "first_only" and k > 0:
+            lose(r)
+        elif kind == "last_unk" and k == n - 1:
+            lose(r)
+        elif kind == "last_only" and k < n - 1:
+            lose(r)
+        elif kind == "one_bound":
+            r[rng.choice([1, 2])] = unk
+    return {"w": 3, "rows": rows}
+
+
+def tok_col(t):
+    return list(t["v"]) if "v" in t else [r[0] for r in t["rows"]]
+
+
+def timing_class(t):
+    """how the tokens of a stored sequence are timed (histogram key)"""
+    if "v" in t or t["w"] != 3:
+        return "no-columns"
+    known = [r[1] >= 0 and r[2] >= 0 for r in t["rows"]]
+    if not known:
+        return "empty"
+    if all(known):
+        return "all"
+    if not any(known):
+        return "none"
+    return ("first-known" if known[0] else "first-unknown") + ("/rest-mixed" if len(set(known[1:])) > 1 else "/rest-other")
+
+
 def g_vocab(rng):
+    if rng.random() < 0.35:
+        words = g_names(rng, rng.randint(2, 6))
+        ids = rng.sample(range(0, 12), len(words))
+        if rng.random() < 0.1:
+            ids[0] = -3
+        return [[w, i] for w, i in zip(words, ids)]
     words = WORDS[:]
     rng.shuffle(words)
     words = words[:rng.randint(2, 6)]
@@ -936,6 +1026,13 @@ def g_er(rng):
         bs = [b for b in range(2, n_) if n_ % b]
         case.update(distances=True, per_utt=rng.random() < 0.15, warn=False, batch=rng.choice(bs) if bs else 2,
                     batch2=rng.choice([1, n_, 100]))
+    if rng.random() < 0.4:
+        # (round-4 miss C17-g) per-token attributes: the boundaries of any subset of the tokens of a reference - and of a
+        # hypothesis - are unknown; only the token column counts.  Token names come from prefix families
+        case["timing"] = {u: timing_only(g_timing(rng, v)) for u, v in case["ref"].items()}
+        case["htiming"] = {u: timing_only(g_timing(rng, v, rng.choice([None, "vec", "vec"]))) for u, v in case["hyp"].items()}
+        if mode != "int" and rng.random() < 0.8:
+            case["toks"] = g_names(rng, len(toks))
     if mode == "int" and rng.random() < 0.5:
         # stored ids are arbitrary integers: negative ones (-1, -2, ...) and large ones are ordinary tokens
         sh = rng.choice([1, 2, 3, -1000])
@@ -950,7 +1047,23 @@ def g_er(rng):
     return g_layout(rng, case, 0.25)
 
 
+def timing_only(t):
+    """the shape and the boundary columns of a stored sequence, without its token column"""
+    if "v" in t:
+        return {"shape": "vec"}
+    if t["w"] != 3:
+        return {"shape": "col1"}
+    return {"shape": "w3", "se": [r[1:] for r in t["rows"]]}
+
+
 def _er_tensor(seq, timing):
+    """timing: falsy (a vector), True (every token timed) or a timing_only() descriptor for len(seq) tokens"""
+    if isinstance(timing, dict):
+        if timing["shape"] == "vec":
+            return {"v": list(seq)}
+        if timing["shape"] == "col1":
+            return {"w": 1, "rows": [[x] for x in seq]}
+        return {"w": 3, "rows": [[x] + list(se) for x, se in zip(seq, timing["se"])]}
     if timing:
         return {"w": 3, "rows": [[x, 2 * i, 2 * i + 1] for i, x in enumerate(seq)]}
     return {"v": list(seq)}
@@ -1004,7 +1117,7 @@ def x_er(chk, sc, case):
     rd, hd = os.path.join(root, "ref"), os.path.join(root, "hyp")
     pre, suf = case["pre"], case["suf"]
     write_dir(rd, {pre + u + suf: _er_tensor(v, case["timing"].get(u)) for u, v in case["ref"].items()}, case["strays"])
-    write_dir(hd, {pre + u + suf: _er_tensor(v, False) for u, v in case["hyp"].items()}, case["strays"])
+    write_dir(hd, {pre + u + suf: _er_tensor(v, case.get("htiming", {}).get(u)) for u, v in case["hyp"].items()}, case["strays"])
     name = (lambda i: case["toks"][i] if i < len(case["toks"]) else i) if case["mode"] != "int" else (lambda i: i)
     if case["mode"] != "int":
         write_map(os.path.join(root, "i2t"), list(enumerate(case["toks"])), case["mode"] == "str_swap")
@@ -1024,6 +1137,12 @@ def x_er(chk, sc, case):
         cnt["er_audit=distances total, several batches, last one shorter"] = 1
     if case["warn"] and any(v != u and v.startswith(u) and ((u in both) != (v in both)) for u in every for v in every):
         cnt["er_audit=--warn-missing, an id and its extension, one of them unpaired"] = 1
+    for side, tm in (("ref", case["timing"]), ("hyp", case.get("htiming", {}))):
+        for u in case[side]:
+            if isinstance(tm.get(u), dict):
+                cnt[f"er_{side}_timing=" + timing_class(_er_tensor(case[side][u], tm[u]))] = 1
+    if case["mode"] != "int" and any(len(a) > 1 and a != b and a.startswith(b) for a in case["toks"] for b in case["toks"]):
+        cnt["er_names=a name is a proper prefix of another"] = 1
     terms, meta = [], []
     # the pairing and the filtering, read off the property (for the oracle table and the spec term)
     common = sorted(set(case["ref"]) & set(case["hyp"]))
@@ -1065,6 +1184,9 @@ def x_er(chk, sc, case):
     else:
         impl = cout(res["exc"], "")
     terms.append(("er", f"check_er ({model}) {impl}" if impl else "false"))
+    if res["exc"] is not None:
+        # the command raised: a concrete failure of "the command prints ..." unless the stored data make the model raise too
+        terms.append(("spec:er-raises", f"match ({model}) with Done _ => false | Fail _ => true end"))
     if res["exc"] is None and not case["per_utt"] and uniform and impl:
         alltok = sorted({t for r, h in pairs for t in r + h}, key=str)
         enc = cl([cp(ctk(t), cz(i)) for i, t in enumerate(alltok)])
@@ -1671,12 +1793,234 @@ def x_chunk(chk, sc, case):
 
 
 # ----------------------------------------------------------------------------------------
+# kind "tokdir" (round-4 miss C17-g): a hand-made token directory whose utterances carry boundaries on ANY subset of their
+# tokens, names from prefix families -> every command that reads such a directory, and the inverse command on its output.
+# Judged by the model (arguments of write_trn / write_ctm), by the property's round trip (what comes back is the stored
+# token column, known boundaries within one frame) and by the documented rejections (ctm needs every boundary; the
+# TextGrid writer picks intervals / points / one interval according to what is known).
+# ----------------------------------------------------------------------------------------
+
+
+def g_tokdir(rng):
+    pre, suf = g_name_parts(rng)
+    names = g_names(rng, rng.randint(2, 6))
+    ids = rng.sample(range(0, 12), len(names))
+    if rng.random() < 0.1:
+        ids[0] = -3
+    tg = rng.random() < 0.55
+    regime = rng.choice(["any", "any", "any", "timed", "points"])
+    files = {}
+    for u in g_utts(rng, rng.choice([1, 2, 3, 4, 5])):
+        seq = [rng.choice(ids) for _ in range(rng.choice([1, 2, 2, 3, 4, 5] if tg else [0, 1, 2, 2, 3, 4, 5]))]
+        kind = {"timed": "timed", "points": rng.choice(["one_bound", "timed", "first_unk"])}.get(regime)
+        while kind is None or (tg and kind == "col1"):
+            kind = rng.choice(TIMINGS)
+        files[pre + u + suf] = g_timing(rng, seq, kind)
+    used = sorted({i for t in files.values() for i in tok_col(t)})
+    case = dict(kind="tokdir", pre=pre, suf=suf, vocab=[[w, i] for w, i in zip(names, ids)], files=files,
+                strays=g_strays(rng, pre, suf), swap=rng.random() < 0.3, fs=rng.choice(SHIFTS),
+                drop=rng.choice(used) if used and not tg and rng.random() < 0.12 else None,
+                back_shape=rng.choice(["full", "skip", "featsz"]), trn_workers=2 if rng.random() < 0.04 else 0)
+    if tg:
+        case["tg"] = dict(tgsuf=rng.choice([None, None, ".tg"]), infer=rng.random() < 0.6,
+                          force=rng.choice([1, 2, 3]) if rng.random() < 0.2 else None)
+        case.update(chunk=rng.choice([1, 2]), sched=rng.randint(0, 10 ** 6))
+    if rng.random() < 0.12:
+        case["argv"] = True
+    return g_layout(rng, case, 0.25)
+
+
+def _tg_allows(t, m):
+    """the three ways torch-token-data-dir-to-textgrids documents: 1 every boundary known and every segment non-empty;
+    2 at least one boundary of every token known; 3 always"""
+    rows3 = t.get("rows") if t.get("w") == 3 else None
+    if m == 1:
+        return rows3 is not None and all(r[1] >= 0 and r[2] > r[1] for r in rows3)
+    if m == 2:
+        return rows3 is not None and all(max(r[1], r[2]) >= 0 for r in rows3)
+    return True
+
+
+def x_tokdir(chk, sc, case):
+    import pydrobert.torch.data as data
+    root = sc.new()
+    d, i2t, t2i = (os.path.join(root, x) for x in ("ref", "i2t", "t2i"))
+    pre, suf, files = case["pre"], case["suf"], case["files"]
+    utt = {n: n[len(pre):len(n) - len(suf)] for n in files}
+    write_dir(d, files, case["strays"])
+    src = read_dir(d, case["strays"])
+    items = [(i, w) for w, i in case["vocab"] if i != case.get("drop")]
+    id2 = dict(items)
+    write_map(i2t, items, case["swap"])
+    write_map(t2i, case["vocab"], False)
+    swap = ["--swap"] if case["swap"] else []
+    order = sorted(files, key=lambda n: utt[n])          # the data set yields the utterances sorted by id
+    unknown_id = any(i not in id2 for t in files.values() for i in tok_col(t))
+    fs = 10.0 if case["fs"] is None else case["fs"]
+    fsa = [] if case["fs"] is None else ["--frame-shift-ms", case["fs"]]
+    sec = lambda x: x * fs / 1000  # noqa: E731
+    terms, meta, cnt = [], [], {}
+    for t in files.values():
+        cnt["tokdir_timing=" + timing_class(t)] = 1
+    if any(len(a) > 1 and a != b and a.startswith(b) for a, _ in case["vocab"] for b, _ in case["vocab"]):
+        cnt["tokdir_names=a name is a proper prefix of another"] = 1
+
+    def close_rows(got, want, point=False):
+        """same token column, known boundaries within one frame (unknown ones are not compared)"""
+        if got.get("w") != 3 or len(got["rows"]) != len(want):
+            return False
+        for g, w in zip(got["rows"], want):
+            ws, we = (max(w[1], w[2]),) * 2 if point else (w[1], w[2])
+            if g[0] != w[0] or abs(g[1] - ws) > 1 or abs(g[2] - we) > 1:
+                return False
+        return True
+
+    # ---- torch-token-data-dir-to-trn, then trn-to-torch-token-data-dir -------------------------------------------------
+    trn, bd = os.path.join(root, "out.trn"), os.path.join(root, "back")
+    res = run_cmd("torch_token_data_dir_to_trn", [d, i2t, trn] + fix_args(case) + ["--num-workers", case.get("trn_workers", 0)]
+                  + swap, None, capture=["write_trn"])
+    cnt["tokdir_trn_outcome=" + str(res["exc"])] = 1
+    got = res["calls"].get("write_trn", [[None]])[0][0]
+    model = f"dir_to_trn {ci2t(items)} {cs(pre)} {cs(suf)} {cdir(src)}"
+    impl = cout(None, ctranscripts(got)) if (res["exc"] is None and got is not None) else cout(res["exc"], "")
+    terms.append(("dir->trn", f"check_transcripts ({model}) {impl}" if impl else "false"))
+    if unknown_id:
+        if res["exc"] != "ValueError":
+            meta.append(f"token dir -> trn with an id that has no name: outcome {res['exc']}, expected ValueError")
+    elif res["exc"] is not None:
+        meta.append(f"token dir -> trn raised {res['exc']}")
+    else:
+        want = [[utt[n], [id2[i] for i in tok_col(files[n])]] for n in order]
+        back = [[u, list(tr)] for u, tr in data.read_trn(trn)]
+        if back != want:
+            meta.append(f"token dir -> trn wrote {back!r}; the stored token columns are {want!r}")
+        else:
+            r2 = run_cmd("trn_to_torch_token_data_dir", [trn, t2i, bd] + fix_args(case) + ["--num-workers", 0]
+                         + shape_args({"shape": case["back_shape"]}))
+            mk = {"full": lambda c: {"w": 3, "rows": [[i, -1, -1] for i in c]}, "skip": lambda c: {"v": c},
+                  "featsz": lambda c: {"w": 1, "rows": [[i] for i in c]}}[case["back_shape"]]
+            if r2["exc"] is not None or dict(read_dir(bd)) != {n: mk(tok_col(t)) for n, t in files.items()}:
+                meta.append(f"token dir -> trn -> token dir ({case['back_shape']}) did not return the stored token columns "
+                            f"(outcome {r2['exc']})")
+
+    # ---- torch-token-data-dir-to-ctm (every token needs both boundaries), then ctm-to-torch-token-data-dir ----------------
+    ctm, bd2 = os.path.join(root, "out.ctm"), os.path.join(root, "back2")
+    res2 = run_cmd("torch_token_data_dir_to_ctm", [d, i2t, ctm] + fix_args(case) + fsa + swap, None, capture=["write_ctm"])
+    cnt["tokdir_ctm_outcome=" + str(res2["exc"])] = 1
+    call2 = res2["calls"].get("write_ctm", [None])[0]
+    model2 = f"dir_to_ctm {ci2t(items)} {cs(pre)} {cs(suf)} {cqopt(fs)} {cdir(src)}"
+    impl2 = cout(None, ctranscripts(call2[0])) if call2 is not None else cout(res2["exc"], "")
+    terms.append(("dir->ctm", f"check_transcripts_tol ({model2}) {impl2}" if impl2 else "false"))
+    all_timed = all(not tok_col(t) or (t.get("w") == 3 and all(r[1] >= 0 and r[2] >= 0 for r in t["rows"])) for t in files.values())
+    if unknown_id or not all_timed:
+        if res2["exc"] != "ValueError":
+            meta.append(f"token dir -> ctm with a token lacking a boundary (or a name): outcome {res2['exc']}, expected ValueError")
+    elif res2["exc"] is not None:
+        meta.append(f"token dir -> ctm raised {res2['exc']} although every token has both boundaries")
+    else:
+        full = {n: t for n, t in files.items() if tok_col(t)}
+        gotc = {u: tr for u, tr in data.read_ctm(ctm)}
+        ok = set(gotc) == {utt[n] for n in full}
+        for n, t in full.items() if ok else []:
+            tr = gotc[utt[n]]
+            ok = ok and len(tr) == len(t["rows"]) and all(
+                x[0] == id2[r[0]] and abs(x[1] - sec(r[1])) < 1e-6 and abs(x[2] - sec(r[2])) < 1e-6 for x, r in zip(tr, t["rows"]))
+        if not ok:
+            meta.append(f"token dir -> ctm wrote {gotc!r}: not the stored tokens with their boundaries in seconds")
+        else:
+            r3 = run_cmd("ctm_to_torch_token_data_dir", [ctm, t2i, bd2] + fix_args(case) + fsa + ["--num-workers", 0])
+            o3 = dict(read_dir(bd2)) if r3["exc"] is None else {}
+            if set(o3) != set(full) or not all(close_rows(o3[n], t["rows"]) for n, t in full.items()):
+                meta.append(f"token dir -> ctm -> token dir changed a token or moved a boundary by more than one frame "
+                            f"(outcome {r3['exc']})")
+
+    # ---- torch-token-data-dir-to-textgrids: intervals / points / one interval, then textgrids-to-torch-token-data-dir ----
+    if case.get("tg") and not unknown_id and all(tok_col(t) and "other" not in t and t.get("w", 3) == 3 for t in files.values()):
+        o = case["tg"]
+        tgsuf = o["tgsuf"] or ".TextGrid"
+        maxb = {n: max([max(r[1:]) for r in t["rows"]] if "rows" in t else [-1]) for n, t in files.items()}
+        infer = o["infer"] and all(m > 0 for m in maxb.values())
+        bargs = fix_args(case) + fsa + swap + ["--quiet"] + (["--textgrid-suffix", o["tgsuf"]] if o["tgsuf"] else [])
+        if infer:
+            bargs.append("--infer")
+            T = {n: sec(m) for n, m in maxb.items()}
+        else:
+            fd = os.path.join(root, "feat")
+            write_dir(fd, {n: {"w": 1, "rows": [[0]] * (max(m, 0) + 2)} for n, m in maxb.items()}, float_=True)
+            bargs += ["--feat-dir", fd]
+            T = {n: sec(max(m, 0) + 2) for n, m in maxb.items()}
+        if o["force"]:
+            bargs += ["--force-method", o["force"]]
+        meth = {n: (o["force"] if _tg_allows(t, o["force"]) else None) if o["force"]
+                else next(m for m in (1, 2, 3) if _tg_allows(t, m)) for n, t in files.items()}
+        tg2, tg3 = os.path.join(root, "tg2"), os.path.join(root, "tg3")
+        r0 = run_cmd("torch_token_data_dir_to_textgrids", [d, i2t, tg2] + bargs + ["--num-workers", 0])
+        r1 = run_cmd("torch_token_data_dir_to_textgrids", [d, i2t, tg3] + bargs + ["--num-workers", 2, "--mp-chunk-size",
+                                                                                   case.get("chunk", 1)], case.get("sched", 1))
+        cnt["tokdir_tg_outcome=" + str(r0["exc"])] = 1
+        for m in meth.values():
+            cnt["tokdir_tg_method=" + str(m)] = 1
+        if None in meth.values():
+            if r0["exc"] != "ValueError" or r1["exc"] != "ValueError":
+                meta.append(f"--force-method {o['force']} on a sequence without the boundaries it needs: serial outcome "
+                            f"{r0['exc']}, pool outcome {r1['exc']}, expected ValueError")
+        elif r0["exc"] is not None or r1["exc"] is not None:
+            meta.append(f"token dir -> TextGrids raised (serial {r0['exc']}, pool {r1['exc']})")
+        else:
+            a = {n: open(os.path.join(tg2, n)).read() for n in os.listdir(tg2)}
+            b = {n: open(os.path.join(tg3, n)).read() for n in os.listdir(tg3)}
+            if a != b:
+                meta.append("token dir -> TextGrids: the pool wrote different files than the serial run")
+            if set(a) != {pre + utt[n] + tgsuf for n in files}:
+                meta.append(f"token dir -> TextGrids wrote {sorted(a)}")
+            else:
+                sel = os.path.join(root, "tgsel")
+                os.makedirs(sel)
+                for n, t in files.items():
+                    p = os.path.join(tg2, pre + utt[n] + tgsuf)
+                    try:
+                        tr = [list(x) for x in data.read_textgrid(p)[0]]
+                    except Exception as e:  # noqa: BLE001
+                        meta.append(f"TextGrid written for {n!r} cannot be read back ({exc_kind(e)})")
+                        continue
+                    nm = [id2[i] for i in tok_col(t)]
+                    eps = 1e-5
+                    if meth[n] == 1:
+                        ok = "IntervalTier" in a[pre + utt[n] + tgsuf] and len(tr) == len(nm) and all(
+                            x[0] == w and abs(x[1] - sec(r[1])) < eps and abs(x[2] - sec(r[2])) < eps
+                            for x, w, r in zip(tr, nm, t["rows"]))
+                    elif meth[n] == 2:
+                        ok = "TextTier" in a[pre + utt[n] + tgsuf] and len(tr) == len(nm) and all(
+                            x[0] == w and abs(x[1] - sec(max(r[1:]))) < eps and abs(x[2] - sec(max(r[1:]))) < eps
+                            for x, w, r in zip(tr, nm, t["rows"]))
+                    else:
+                        ok = ("IntervalTier" in a[pre + utt[n] + tgsuf] and len(tr) == 1 and tr[0][0] == " ".join(nm)
+                              and abs(tr[0][1]) < eps and abs(tr[0][2] - T[n]) < eps)
+                    if not ok:
+                        meta.append(f"TextGrid of {n!r} (stored {t!r}, way {meth[n]}) holds {tr!r}: not the stored tokens "
+                                    f"with the boundaries that are known")
+                    elif meth[n] in (1, 2):
+                        shutil.copy(p, os.path.join(sel, pre + utt[n] + tgsuf))
+                if not meta and os.listdir(sel):
+                    bd3 = os.path.join(root, "back3")
+                    r4 = run_cmd("textgrids_to_torch_token_data_dir", [sel, t2i, bd3] + fix_args(case) + fsa + ["--num-workers", 0]
+                                 + (["--textgrid-suffix", o["tgsuf"]] if o["tgsuf"] else []))
+                    o4 = dict(read_dir(bd3)) if r4["exc"] is None else {}
+                    wantn = {n for n in files if meth[n] in (1, 2)}
+                    if set(o4) != wantn or not all(close_rows(o4[n], files[n]["rows"], meth[n] == 2) for n in wantn):
+                        meta.append(f"token dir -> TextGrids -> token dir changed a token or moved a known boundary by more "
+                                    f"than one frame (outcome {r4['exc']})")
+    mixed = any(timing_class(t).startswith("first-") for t in files.values())
+    return dict(terms=terms, meta=meta, count=cnt, nontrivial=mixed)
+
+
+# ----------------------------------------------------------------------------------------
 # driver
 # ----------------------------------------------------------------------------------------
 
-EXEC = {"ali": x_ali, "ref2ali": x_ref2ali, "trn": x_trn, "ctm": x_ctm, "er": x_er, "subset": x_subset, "mom_ali": x_mom, "mom_ref": x_mom, "mvn": x_mvn, "tg": x_tg, "chunk": x_chunk}
-GEN = {"ali": g_ali, "ref2ali": g_ref2ali, "trn": g_trn, "ctm": g_ctm, "er": g_er, "subset": g_subset, "mom_ali": g_mom_ali, "mom_ref": g_mom_ref, "mvn": g_mvn, "tg": g_tg, "chunk": g_chunk}
-QUICK = {"ali": 90, "ref2ali": 70, "trn": 120, "ctm": 100, "er": 180, "subset": 220, "mom_ali": 70, "mom_ref": 90, "mvn": 80, "tg": 80, "chunk": 16}
+EXEC = {"ali": x_ali, "ref2ali": x_ref2ali, "trn": x_trn, "ctm": x_ctm, "er": x_er, "subset": x_subset, "mom_ali": x_mom, "mom_ref": x_mom, "mvn": x_mvn, "tg": x_tg, "chunk": x_chunk, "tokdir": x_tokdir}
+GEN = {"ali": g_ali, "ref2ali": g_ref2ali, "trn": g_trn, "ctm": g_ctm, "er": g_er, "subset": g_subset, "mom_ali": g_mom_ali, "mom_ref": g_mom_ref, "mvn": g_mvn, "tg": g_tg, "chunk": g_chunk, "tokdir": g_tokdir}
+QUICK = {"ali": 90, "ref2ali": 70, "trn": 120, "ctm": 100, "er": 180, "subset": 220, "mom_ali": 70, "mom_ref": 90, "mvn": 80, "tg": 80, "chunk": 16, "tokdir": 110}
 
 
 def g_real(rng, k):
@@ -1758,6 +2102,11 @@ def _cands(case):
         if case.get(key):
             c = json.loads(json.dumps(case))
             c[key] = []
+            yield c
+    for key in ("tg", "views", "htiming"):
+        if case.get(key):
+            c = json.loads(json.dumps(case))
+            del c[key]
             yield c
 
 
